@@ -419,6 +419,7 @@ func buildGuarded(c *corpus) (*mc.Guarded, func(i int) (ep, id string)) {
 	if c.Tier == "quick" {
 		stride = 4
 	}
+	repeatAll := c.Tier != "quick"
 	fams := families(stride)
 	type block struct {
 		seed  int
@@ -477,7 +478,17 @@ func buildGuarded(c *corpus) (*mc.Guarded, func(i int) (ep, id string)) {
 			ep, name, data := find(i)
 			return mc.GuardedCase{ID: fmt.Sprintf("ep=%s input=[%s]", ep, name), Run: func() (string, int) {
 				b := data()
-				return eps[ep](b), len(b)
+				out := eps[ep](b)
+				// History: the same input presented a second time to the same process (a peer that
+				// repeats a hostile message). Whatever the first decode remembered - a size it saw, a
+				// pooled buffer it grew - is in place for the second. Quick repeats the inputs with a
+				// substituted 32-bit field; thorough repeats every input.
+				if repeatAll || strings.Contains(name, "u32") {
+					if out2 := eps[ep](append([]byte(nil), b...)); out2 != out {
+						out = "first: " + out + " | again: " + out2
+					}
+				}
+				return out, len(b)
 			}}
 		},
 	}
